@@ -14,25 +14,31 @@ ID = "C20"
 PROPS = "Props/C20.v"
 IMPORTS = "From PV Require Import Lib.Common Model.C20_Loop."
 SHARD = 12
-LEVEL_TEXT = ("Coq theorems over an executable heap model (locations, dicts key->leaf, sharing, deep copy with memo) of "
+LEVEL_TEXT = ("Coq theorems over an executable heap model (locations, dicts key->leaf, sharing, copy.deepcopy with memo) of "
               "RecurrentSelectionBreedingProgram.evolve/advance/reset/initialize with operators and logbook as ARBITRARY heap "
-              "transformers: for all replicate/generation counts and all operators the call trace is a prefix of (and, without "
-              "errors, exactly) the per-replicate shape evaluate@0, log_initialize?, then per generation g=1..ngen "
-              "pselect,log,mate,log,evaluate,log,sselect,log @g, every call receiving the containers its predecessor returned; "
-              "for all operators that only touch what they can reach from their arguments/private memory (in-place mutation, "
-              "aliasing, stashing allowed) the stored start state is never written and every replicate's first evaluation sees a "
-              "fresh copy whose contents equal the initial start state.  The model is tied to the code by evaluating it inside Coq "
-              "against traces (operator, t_cur, t_max, rep, identities and contents of every argument, miscout) recorded by "
-              "instrumented operator/logbook subclasses passed through the public constructor.")
+              "transformers: for all replicate/generation counts, all states and all operators the call trace is a prefix of - and, "
+              "when operators return five dicts and nothing raises, exactly - the per-replicate shape reset, evaluate@0, log_initialize?, "
+              "then per generation g=1..ngen pselect,log,mate,log,evaluate,log,sselect,log @g with rep0+r in every log; every call "
+              "receives the containers / mating configuration / miscout its predecessor left and the heap nobody touched in between; "
+              "for all operators that only touch what they can reach from their arguments and private memory (in-place mutation, "
+              "aliasing, fresh containers, remembering containers across replicates all allowed) no cell of the start state is ever "
+              "written, and every replicate's first evaluation sees containers on locations that did not exist when the replicate was "
+              "entered, with contents equal to - and inner sharing identical to - the initial start state; every program of the action "
+              "language used by the correspondence is proved to be such an operator.  The model is tied to the code by evaluating it "
+              "inside Coq against traces (operator, t_cur, t_max, rep, identities and contents of every argument, miscout) recorded by "
+              "instrumented operator/logbook subclasses passed through the public constructor, incl. error paths (wrong return type, "
+              "raising operator/logbook, miscout keys colliding with parameter names, missing start containers).")
 LEVEL_NOTE = ("trusted: Coq kernel + vm_compute; the action-language interpreter in this module (Python side of the operator "
               "programs) and its Gallina twin; copy.deepcopy modelled for dict -> list-of-int containers (two levels, memo per call); "
               "theorems are about the Gallina model, the tie to the code is differential on generated (heap, programs, calls) cases")
 TECHNIQUE = "Coq proof over an executable heap/trace model of the loop; in-Coq vm_compute correspondence with instrumented runs"
 RULE = ("case = (leaf lists, dicts with possibly shared leaves, start_* slots or None, initop result, t_max, rep0, "
-        "[evolve(nrep, ngen, loginit)...], action program per operator and per logbook method); generated from one PRNG: a sweep of "
-        "nrep,ngen in -1..3 x loginit with random programs, plus random cases incl. uninitialised/partially initialised programmes, "
-        "aliased start containers, two evolve calls, error-raising programs; non-trivial = some call with nrep >= 2 and ngen >= 1, "
-        "at least one in-place-mutating action in an operator or logbook program, and no error; distinct by SHA-256 of the case")
+        "[evolve(nrep, ngen, loginit)...], action program per operator and per logbook method); one PRNG: ~170 systematic corners "
+        "(each start slot missing, each initop slot missing, in-place mutation of each container across two replicates, wrong return "
+        "type in every slot of every operator, raising operator/logbook method, every miscout key colliding with a parameter name, "
+        "mating configuration aliased/remembered), a sweep of nrep,ngen in -1..3 x loginit with random programs, and random cases incl. "
+        "uninitialised/partially initialised programmes, the same dict in several start slots, two evolve calls, error-raising programs; "
+        "non-trivial = some call with nrep >= 2 and ngen >= 1, at least one in-place-mutating action, no error; distinct by SHA-256")
 TRUSTED = ["the Python interpreter of the action language (harness/props/c20.py:_run_prog) is the twin of Model/C20_Loop.v:act",
            "copy.deepcopy on dict-of-list containers: fresh dict, fresh leaves, sharing inside one container preserved (memo), "
            "sharing across the five containers lost (five separate deepcopy calls) - mirrored by the model",
